@@ -146,7 +146,7 @@ def written_args(func):
 
 
 class Engine(TorchDispatchMode):
-    def __init__(self, witness=None, prefix=(), seed=0, crosscheck=True, trace_functions=True, cut_sites=(),
+    def __init__(self, witness=None, prefix=(), seed=0, crosscheck=True, trace_functions=True, cut_sites=(), floor_cut=False,
                  range_mode="assume", item_whitelist=()):
         super().__init__()
         self.store = {}
@@ -170,6 +170,7 @@ class Engine(TorchDispatchMode):
         self.tainted = []
         self.trace_functions = trace_functions
         self.cut_sites = tuple(cut_sites)
+        self.floor_cut = bool(floor_cut)  # eigenvalue floors clamp(min=c), 0 < c <= 1e-6, assumed not triggered
         self.range_mode = range_mode  # "assume" | "fork"
         self.nfresh = 0
         self.sparse = {}  # id(sparse tensor) -> (indices tensor, values tensor, size)
